@@ -17,7 +17,7 @@ META = {
     "fresh or continuing a simulation with a concrete end",
     "stubs": ["scipy.integrate.solve_ivp -> uninterpreted flow with scipy's preconditions; closed form in replays",
               "pd/np/float module globals of mxlpy, mxlpy.model, mxlpy.simulator, mxlpy.simulation, mxlpy.integrators.int_scipy rebound to proxies"],
-    "outside": "symbolic or non-dyadic durations; steps that omit a parameter named by another step",
+    "outside": "symbolic or non-dyadic durations",
     "assumptions_list": ["requested time points strictly increasing", "real arithmetic"],
 }
 
@@ -39,7 +39,9 @@ class Proto(Scenario):
     concrete_tol = 1e-9
 
     def __init__(self, kind, durations, mode, npts=0, relative=False, continued=False, swap=False, per_step=1, edit_before=False,
-                 edit_after=False, grid_array=False):
+                 edit_after=False, grid_array=False, ragged=False, t_prev=0.5):
+        self.ragged = ragged  # later steps name only the first parameter: the others keep the value they have
+        self.t_prev = t_prev  # concrete end of the earlier simulation (time-course form), e.g. a non-dyadic 1/3
         self.edit_after = edit_after  # the model's parameters are changed by hand after the protocol ran and before its fluxes are first read
         self.grid_array = grid_array  # the requested grid is passed as an ndarray, which must come back as it was passed
         self.edit_before = edit_before  # a manual parameter change between the earlier simulation and the protocol
@@ -54,7 +56,8 @@ class Proto(Scenario):
         d = "_".join(str(x) for x in durations)
         self.key = (f"C14/{kind}/{mode}/d{d}/n{npts}{'r' if relative else 'a'}/"
                     f"{'cont' if continued else 'fresh'}{'/swap' if swap else ''}{f'/s{per_step}' if mode == 'P' else ''}{'/edit' if edit_before else ''}"
-                    f"{'/edit-after' if edit_after else ''}{'/grid-array' if grid_array else ''}")
+                    f"{'/edit-after' if edit_after else ''}{'/grid-array' if grid_array else ''}{'/ragged' if ragged else ''}"
+                    f"{'' if t_prev == 0.5 else '/after-' + str(round(t_prev, 4))}")
 
     def run(self, ctx):
         import mxlpy.integrators.int_scipy as isc
@@ -66,6 +69,13 @@ class Proto(Scenario):
             self._run(ctx, fm)
         finally:
             isc.spi = saved
+
+    @staticmethod
+    def _step_values(vals, segp, m0_p):
+        """Parameter values in force during a step: the previous ones, updated with what the step names."""
+        prev = dict(segp[-1]) if segp and len(segp[-1]) == len(m0_p) else dict(m0_p)
+        prev.update(vals)
+        return {k: prev[k] for k in sorted(prev)}
 
     def _run(self, ctx, fm):
         from mxlpy import Simulator, make_protocol
@@ -82,7 +92,7 @@ class Proto(Scenario):
         started = False
         rows, segp, seg_of_row = [], [], []
         if self.continued:
-            t_prev = ctx.real("t_prev") if self.mode == "P" else 0.5
+            t_prev = ctx.real("t_prev") if self.mode == "P" else self.t_prev
             if self.mode == "P":
                 ctx.assume(t_prev > 0)
             with ctx.impl("earlier simulate"):
@@ -99,27 +109,30 @@ class Proto(Scenario):
                     for pn_ in pnames:
                         sim.update_parameter(pn_, ctx.real(f"edit_{pn_}"))
         # the protocol
+        m0_p = ghost_pvals(m)  # what the model holds when the protocol starts
         steps = []
         for i, d in enumerate(self.durations):
             keys = list(pnames)
             if self.swap and i % 2 == 1:
                 keys = keys[::-1]
+            if self.ragged and i > 0:
+                keys = keys[:1]
             steps.append((d, {k: ctx.real(f"st{i}_{k}") for k in keys}))
         with ctx.impl("make_protocol"):
             protocol = make_protocol(steps)
         t_start = reached
         bounds = []
-        acc = t_start
+        cum = 0
         for d, _ in steps:
-            acc = acc + d
-            bounds.append(acc)
+            cum = cum + d
+            bounds.append(t_start + cum)  # start + cumulative duration (in floats the order of the additions matters for a non-dyadic start)
         t_end = bounds[-1]
         if self.mode == "P":
             with ctx.impl("simulate_protocol"):
                 sim.simulate_protocol(protocol, time_points_per_step=self.per_step)
             lo = t_start
             for (d, vals), hi in zip(steps, bounds):
-                p = {k: vals[k] for k in sorted(vals)}
+                p = self._step_values(vals, segp, m0_p)
                 n = self.per_step
                 pts = [lo + (hi - lo) * j / n for j in range(n)] + [hi]
                 new = [(q, fm.flow(p, y_cur, lo, q, sym)) for q in pts]
@@ -155,7 +168,7 @@ class Proto(Scenario):
                 return
             lo = t_start
             for (d, vals), hi in zip(steps, bounds):
-                p = {k: vals[k] for k in sorted(vals)}
+                p = self._step_values(vals, segp, m0_p)
                 inside = [q for q in absreq if bool(q > lo) and bool(q < hi)]
                 pts = inside + [hi]
                 new = [(q, fm.flow(p, y_cur, lo, q, sym)) for q in pts]
@@ -184,7 +197,7 @@ class Proto(Scenario):
         if self.edit_after:
             return
         # the model is left with the last step's values
-        last = {k: steps[-1][1][k] for k in steps[-1][1]}
+        last = dict(segp[-1]) if self.ragged else {k: steps[-1][1][k] for k in steps[-1][1]}
         with ctx.impl("parameters after protocol"):
             pv = m.get_parameter_values()
         for k, v in last.items():
@@ -211,6 +224,10 @@ def scenarios(tier, seed):
                 for rel in (False, True):
                     scs.append(Proto("decay", lay, "TC", npts=npts, relative=rel, continued=cont))
             scs.append(Proto("chain", lay, "TC", npts=1, relative=cont, continued=cont, swap=True))
+        if len(lay) == 2:
+            scs.append(Proto("chain", lay, "P", ragged=True))
+            scs.append(Proto("chain", lay, "TC", npts=1, relative=True, continued=True, ragged=True))
+            scs.append(Proto("decay", lay, "TC", npts=2, relative=True, continued=True, t_prev=1 / 3))
         if len(lay) <= 2:
             scs.append(Proto("decay", lay, "P", continued=False, per_step=1, edit_after=True))
             scs.append(Proto("decay", lay, "TC", npts=1, relative=True, continued=True, edit_after=True, grid_array=True))
